@@ -41,6 +41,7 @@ type Op struct {
 	Trim    bool        `json:"trim,omitempty"`
 	Fault   *Fault      `json:"fault,omitempty"`
 	Line    string      `json:"line,omitempty"`
+	Empty   bool        `json:"empty,omitempty"`  // Write(nil): nothing to write
 	Chunks  bool        `json:"chunks,omitempty"` // the line reaches the container in two Write calls: its text, then its line feed
 }
 
